@@ -360,6 +360,7 @@ def run(ctx):
     # "an existing file is never overwritten or truncated" - nor removed
     streams.append(write_fault_stream(ctx, r))
     streams.append(many_stores_stream(ctx, r))
+    streams.append(receiver_archive_stream(ctx, r))
 
     # the path a message takes in the server before it is stored: queue -> consumer task -> dispatch closure ->
     # to_thread(write_message).  server.main() in-process (harness/servermain.py), sessions ending at the same instant
@@ -458,6 +459,52 @@ def run(ctx):
     streams.append(p)
 
     return streams
+
+
+def receiver_archive_stream(ctx, r):
+    """the store as the receiver uses it: with a folder ./astm_messages present, every completed transfer is stored there
+    as one file holding exactly the raw transfer (accepted frames joined by LF, text written as UTF-8), whatever format
+    the deliveries have, however many transfers complete within one clock second"""
+    from harness import impl, gens, oracles
+    from harness.props import C03
+    ra = Stream("receiver-raw-archive")
+    cwd = impl.private_cwd()
+    target = os.path.join(cwd, "astm_messages")
+    for _ in range(60 if ctx.thorough else 12):
+        shutil.rmtree(target, ignore_errors=True)
+        os.makedirs(target)
+        fmt = r.choice(["astm", "lis2a", "json", "lis2a"])
+        c = impl.Conn(fmt=fmt)
+        ref = oracles.RefReceiver("astm")
+        expected, evs_all = [], []
+        try:
+            for _k in range(r.choice([1, 2, 4])):
+                evs, _meta = C03.sessions(r, fmt == "json")
+                if any(gens.is_vendor_line(e[1]) for e in evs if e[0] == "d"):
+                    continue
+                for ev in evs:
+                    e_ = ref.expect(ev)
+                    ob = c.event(ev)
+                    if e_["deliver"] is not None and ob["exc"] is None:
+                        expected.append(e_["deliver"][1].decode("latin-1").encode("utf-8"))
+                    if e_["closes"] or ob["closes"]:
+                        break
+                evs_all += evs
+                if c.t.closes:
+                    break
+            got = sorted(listing(target).values())
+        finally:
+            shutil.rmtree(target, ignore_errors=True)
+        case = {"format": fmt, "events": [gens.ev_hex(e) for e in evs_all][:80], "completed_transfers": len(expected)}
+        ra.case(case, nontrivial=len(expected) > 1)
+        ra.count(fmt)
+        if got != sorted(expected):
+            ra.fail(dict(case, files=len(got)),
+                    "%d completed transfers (deliveries in format %s) left %d files in ./astm_messages%s" % (
+                        len(expected), fmt, len(got), "" if len(got) != len(expected) else
+                        ", and their contents are not the raw transfers"), "receiver-raw-archive/" + (
+                        "count" if len(got) != len(expected) else "content"))
+    return ra
 
 
 def many_stores_stream(ctx, r):
